@@ -391,3 +391,19 @@ def mtlevel_dirs(rng):
     k = rng.randint(2300000 // avg + 1, 3600000 // avg)
     tail = rng.choice(["c" * 400, "c" * (2200000 // avg + 1) + "w" + "c" * 400, "c" * (4200000 // avg + 1) + "w" + "c" * 400])
     return ins, "c" * k + "u" + tail
+
+
+def ldmedge(rng, s_, second=True):
+    """about 1.3 MB of incompressible bytes with two planted 8 KB copies of earlier stretches: the first copy ENDS `s_` bytes past a 128 KiB block edge
+    (a long-distance match split at the edge leaves a remainder shorter than the minimum match behind it), the second follows in the same worker job
+    (its position is what a lost remainder shifts)"""
+    n = 1300000 + rng.randint(0, 50000)
+    x = bytearray(randbytes(rng, n))
+    edge = rng.choice([4, 5, 6, 7]) * 131072
+    ln = 8192
+    d1 = edge + s_ - ln
+    x[d1:d1 + ln] = x[1000:1000 + ln]
+    if second:
+        d2 = edge + rng.randint(40000, 200000)
+        x[d2:d2 + ln] = x[20000:20000 + ln]
+    return bytes(x)
